@@ -5,15 +5,15 @@ KVUnionStore (ART and RBT buffers, scripted snapshot) and on a real KVTxn over t
 model (ocaml/union) replays every transcript; the property oracles are evaluated by the driver on the
 implementation's outputs against a specification map (snapshot overlaid with the writes in program order,
 savepoints = previous versions) and against the implementation's own earlier observations (restore oracles).
-Failing programs are minimised in process by the driver; this script classifies the minimised program."""
+Failing programs are minimised in process by the driver. There is no known-finding path any more (F03 was
+repaired by 6b4091a; its program is a directed regression on ART, RBT and KVTxn)."""
 import os, time, json, tempfile, shutil
 import vlib
 from vlib import Verdict
 
 PID = "C07"
-PROPS = [("theories/Union/Props.v", "Union.Props")]
+PROPS = [("theories/Union/Props.v", "Union.Props"), ("theories/Union/PropsX.v", "Union.PropsX")]
 AREAS = ["theories/Base", "theories/Union"]
-F03 = "revert-to-checkpoint/same-length-overwrite-after-checkpoint"
 
 CONCLUSION = {
     "revert-restores": "C07_revert_checkpoint: after RevertToCheckpoint(cp) every observable equals the one at Checkpoint()",
@@ -27,25 +27,17 @@ CONCLUSION = {
     "latest-write-wins": "C07_latest_write_wins: a read after a write returns that write",
     "batchget=overlay": "C07_batch_get: batch get = overlay restricted to the requested keys",
     "batchget-shrinks-keys": "C07_batch_get: the snapshot is asked exactly for the requested keys that are not buffered",
+    "flags=fold-of-flag-ops": "C07_flags_fold / C07_flags_undo: flags of a key = fold of its flag operations; undo keeps them (persistent part only when the first value is undone)",
+    "has-presume-kne": "C07_flags_fold: KVUnionStore.HasPresumeKeyNotExists = PresumeKNE | PreviousPresumeKNE of the folded flags",
+    "iter-with-flags=existing-keys": "C07_len: IterWithFlags yields exactly the existing keys (value or flags) in order with folded flags and current value",
+    "len=existing-keys,size=keys+values": "C07_len: Len = number of existing keys; Size = sum of key lengths and current value lengths",
+    "write-status(limits)": "entry limit: len(key)+len(value) > limit is rejected without effect; buffer limit: the write is applied and ErrTxnTooLarge returned iff Size exceeds it",
+    "stale-iterator-fails-loudly": "C07_write_seq: a buffer iterator used after an accepted write panics (ART), after a rejected one it does not",
+    "snapshot-read-ignores-staging": "C07_snapshot_ignores_staging: SnapshotGetter reads the buffer as at the outermost Staging",
+    "snapshot-iter-ignores-staging": "C07_snapshot_ignores_staging: SnapshotIter / SnapshotIterReverse iterate the buffer as at the outermost Staging",
+    "history-head=buffered-value": "SelectValueHistory starts at the buffered value; a key without value has no history",
+    "inspect-stage-covers-changes": "InspectStage(h) reports every key whose buffered value changed since Staging h, each once",
 }
-
-
-def classify(minprog, oracle, fired):
-    """finding_class of a minimised failing program, or None. F03 ONLY for: set k A; checkpoint c; set k B;
-    revert c  (|A| = |B| > 0, A != B, nothing else but at most one trailing read)."""
-    ops = minprog.get("ops", [])
-    core = ops
-    if len(ops) == 5 and ops[4].get("op") in ("get", "iter", "riter", "bget"):
-        core = ops[:4]
-    if len(core) != 4 or not fired:
-        return None
-    a, c, b, r = core
-    if (a.get("op") == "set" and c.get("op") == "cp" and b.get("op") == "set" and r.get("op") == "revert"
-            and a.get("k", "") == b.get("k", "") and c.get("id") == r.get("id")
-            and len(a.get("v", "")) == len(b.get("v", "")) > 0 and a.get("v") != b.get("v")
-            and oracle in ("revert-restores", "get=overlay", "iter=overlay", "batchget=overlay")):
-        return F03
-    return None
 
 
 def run_driver(exe, modelrun, env, progs=None, timeout=2400):
@@ -72,14 +64,14 @@ def main(tier, replay):
     v = Verdict(PID)
     cov = {"checker_cmd": "coq/mk.sh theories/Union/Props.vo (coqc 8.16.1, full .vo build) + Print Assumptions per theorem",
            "trusted_base": vlib.TRUSTED_BASE + [
-               "modelled, not verified: the buffer's ordered index (ART / red-black tree) is abstracted to 'newest value-log entry of the key' and an ascending list; value-log positions are entry counts instead of byte offsets; key flags, size accounting and limits are out of scope (C08)",
+               "modelled, not verified: the buffer's ordered index (ART / red-black tree) is abstracted to 'newest value-log entry of the key' and an ascending list; value-log positions are entry counts instead of byte offsets; Size is modelled (counter updates as in art.go) and compared on every run but has no theorem; key length limit, Dirty, memory hooks not modelled",
                "the Go driver's discipline tracker decides which checkpoints are still legal to revert to (a checkpoint dies when the log is truncated below it; reverting below the top staging level is API misuse)"]}
     gate = vlib.coq_gate(PID, AREAS, PROPS)
     cov.update(obligations=gate["obligations"], discharged=gate["discharged"], theorems=gate["theorems"],
                axioms={k: a for k, a in gate["axioms"].items() if a})
     proof_broken = not gate["ok"]
     if tier == "thorough" and gate["ok"]:
-        okc, outc = vlib.coqchk(["Verif.Union.Props"])
+        okc, outc = vlib.coqchk(["Verif.Union.Props", "Verif.Union.PropsX"])
         cov["coqchk"] = "ok" if okc else outc[-300:]
         if not okc:
             proof_broken = True; gate["problems"].append("coqchk: " + outc[-300:])
@@ -148,11 +140,7 @@ def main(tier, replay):
             l2, m2, e2 = run_driver(exe, modelrun, env, [minprog], timeout=120)
             if not e2:
                 shutil.rmtree(os.path.dirname(l2), ignore_errors=True)
-                obj["model_vs_implementation"] = [x for x in m2 if x.startswith("MISMATCH")] or "faithful model (in-place overwrite on) agrees with the implementation on every op of this program"
-        cls = classify(minprog, oracle, fired)
-        if cls:
-            obj["finding_class"] = cls
-            known_hits += 1
+                obj["model_vs_implementation"] = [x for x in m2 if x.startswith("MISMATCH")] or "the model agrees with the implementation on every op of this program"
         v.violation(obj)
     # ---- model vs implementation (the driver stops a program at its first oracle failure, so a mismatch
     # in a program that also has an oracle failure is the same event; others are correspondence breaks)
@@ -169,15 +157,15 @@ def main(tier, replay):
     n_oracle = sum(n for n, _ in pstat.values())
     cov.update(evaluations=stats.get("cases", 0) + n_oracle,
                distinct_nontrivial=len(distinct),
-               rule="random programs (seeded) of set/delete/get/batch-get(with duplicate keys)/iter/iter-reverse/staging/release/cleanup/checkpoint/revert, "
+               rule="random programs (seeded) of set/delete (with flag ops, some probing a stale buffer iterator)/update-flags/get/get-flags/len+size/batch-get(with duplicate keys)/iter/iter-reverse/iter-with-flags/snapshot get+iter/history/inspect-stage/limits/staging/release/cleanup/checkpoint/revert, "
                     "~40 ops (every 10th 120), key pool of 3-11 adversarial keys per program (empty key, 00/ff runs, prefix chains, a 23-byte common prefix), values of length 1-3 "
-                    "(same-length overwrites frequent) and some of 1.2-4 KB (cross arena blocks), arbitrary bounds incl. lower>upper; 6 of 7 programs avoid the known in-place-overwrite-under-checkpoint pattern (F03) by construction, the rest do not; "
-                    "targets: KVUnionStore+ART, KVUnionStore+RBT over a scripted snapshot, real KVTxn over mocktikv with committed base data; "
+                    "(same-length overwrites frequent, in place or appended depending on staging position and lastCheckpoint) and some of 1.2-4 KB (cross arena blocks), arbitrary bounds incl. lower>upper; directed F03 regression programs (same-length overwrite after a checkpoint, plain / in a level / after release / two checkpoints) on every target; "
+                    "targets: KVUnionStore+ART, KVUnionStore+RBT over a scripted snapshot, real KVTxn over mocktikv (several regions with adversarial split keys, region splits in the middle of a program, open-ended reverse scans, repeated batch gets on a warm snapshot cache) with committed base data; "
                     "distinct_nontrivial = distinct (target, read op, arguments, non-empty result) tuples plus effective cleanup/revert/release executions",
                samples=samples, traces_validated_against_impl=stats.get("programs", 0), programs=stats.get("programs", 0),
                ops_compared_with_model=stats.get("cases", 0), oracle_evaluations={k: n for k, (n, _) in pstat.items()},
                oracle_failures={k: x for k, (_, x) in pstat.items() if x}, generator=gstat,
-               input_distribution=classes, model_mismatches=len(mism), known_finding_hits=known_hits)
+               input_distribution=classes, model_mismatches=len(mism))
     rc = v.finish()
     vlib.write_evidence(PID, cov, t0, violations=len(v.violations), level="proof",
                         assumptions=["bytes are 0..255; Go's bytes.Compare = lex_cmp (cross-checked by C19)",
